@@ -99,7 +99,7 @@ def cases(rnd):
                         [code, mn, mx, int(s), q(pct(pp)), q(pct(lp))], False))
         out.append((name, {}, [code, 1, 2, 1, q(pct(0.33)), q(pct(1.0))], False))
     for _ in range(6):
-        nt = rnd.randint(2, 12)
+        nt = rnd.choice([2, 3, 2, 3, 4]) if rnd.random() < 0.4 else rnd.randint(2, 12)
         ov = b()
         mode = rnd.choice(["R", "R", "F+", "F-", "F*", "C+-", "C+-*", "C*+"])
         op = None if mode == "R" else mode[1] if mode[0] == "F" else list(mode[1:])
@@ -111,7 +111,10 @@ def cases(rnd):
         out.append(("gen_simplify_multiple_terms",
                     dict(num_terms=nt, optional_var=ov, op=op, inner_terms_scaling=its, powers_probability=pr[0], optional_var_probability=pr[1], noise_probability=pr[2],
                          shuffle_probability=pr[3], share_var_probability=pr[4], grouping_noise_probability=pr[5], noise_terms=noise),
-                    ["simplify", nt, int(ov), mode, q(F(its))] + [q(pct(x)) for x in pr] + ["-" if noise is None else noise], False))
+                    ["simplify", nt, int(ov), mode, q(F(its))] + [q(pct(x)) for x in pr] + ["-" if noise is None else noise],
+                    # "a polynomial problem with like terms that need to be combined": guaranteed when the like-term templates are repeated
+                    # (fewer templates than terms), the terms are added/subtracted and the variable is not optional (seed C17-C)
+                    mode in ("F+", "F-", "C+-") and not ov and (1 if nt == 2 else max(2, int(nt * its))) < nt))
     return out
 
 
